@@ -9,6 +9,7 @@
 -/
 import MosVerif.Model.Retry
 import MosVerif.Lemmas.RetryLoop
+import MosVerif.Lemmas.RetryPipelineLink
 import MosVerif.Generated.Facts
 namespace MosVerif.C14
 open MosVerif.Retry
@@ -241,6 +242,19 @@ theorem connDead_wakes (c : PConn) (h : c.inv) :
   have : (connDead c).ctxDone = true := by rw [hi.1]; exact closeWithErr_closed c
   simp [ready, this]
 
+/-- ★ the same on C05's interleaving model (`Model/Pipeline.lean`: any number of exchanges,
+    connections, read loops and an arbitrary server): once `closeWithErr` ran on connection `c`,
+    then after ANY further steps of anybody, every exchange that is (still) blocked in the `select`
+    on `c` can fire its `<-c.ctx.Done()` arm, and that arm makes it leave `exchange` with an error -/
+theorem dead_conn_wakes_all_interleaved (cfg : Pipeline.Cfg) (s : Pipeline.State) (c : Nat)
+    (later : List Pipeline.Step) (e q ch : Nat)
+    (hw : (Pipeline.exec cfg (Pipeline.step cfg s (.close c)) later).pcs e = .waiting c q ch) :
+    (Pipeline.step cfg (Pipeline.exec cfg (Pipeline.step cfg s (.close c)) later) (.dead e)).pcs e
+      = .leaving c q none := by
+  have hc := pl_exec_closed_mono cfg _ later c (pl_close_closes cfg s c)
+  generalize Pipeline.exec cfg (Pipeline.step cfg s (.close c)) later = s' at hw hc ⊢
+  simp [Pipeline.step, hw, hc]
+
 /-- before that a waiter without reply and with a live caller context IS blocked (the statement
     above is not vacuous) -/
 example : ready ({} : PConn) ⟨0, false, false⟩ = [] := by decide
@@ -398,6 +412,26 @@ theorem stalePool_getD (l : List Attempt) (h : stalePoolHealthyServer l = true) 
   · refine ⟨Or.inl ?_, 1, ?_⟩ <;>
       simp [List.getD, List.getElem?_eq_none (Nat.le_of_not_lt hi), defaultAttempt, isHealthy, Get.isErr, healthyDial]
 
+/-- `j ≤ 5` stale pooled attempts, then a fresh connection that fails: the exchange fails after
+    exactly `j + 1` attempts -/
+theorem stale_then_fresh_failure (k : Kind) (o : Oracle) (j : Nat) (hj : j ≤ k.poolLim)
+    (hs : ∀ i, i < j → isStale (o i) = true) (hf : (o j).get = .fresh) (hr : (o j).res = none) :
+    exchange k o = ⟨none, j + 1⟩ := by
+  by_cases hk : k = .doh
+  · subst hk
+    have : j = 0 := by simpa [Kind.poolLim] using hj
+    subst this
+    simp only [exchange, dohOnce]
+    split <;> (try split) <;> simp_all
+  · have hj5 : j ≤ 5 := by cases k <;> simp [Kind.poolLim] at hj hk ⊢ <;> omega
+    have hlim : j ≤ k.lim := by cases k <;> simp [Kind.lim] at hk ⊢ <;> omega
+    rw [exchange_eq_loop k hk]
+    have h1 := loop_skip_stale k.lim (eff k o) 0 j (by omega)
+      (fun i _ hi => by rw [eff_early k o i (by omega)]; exact hs i (by omega))
+    rw [h1, Nat.zero_add, loop]
+    rw [eff_early k o j hj5]
+    simp [hf, hr]
+
 /-- ★ for every loop, every fault script and every choice of observables, the outcome the
     model predicts satisfies the executable specification written from the property text
     (`spec` is what the harness applies to the REAL transports' observed outcomes) -/
@@ -422,6 +456,26 @@ theorem model_meets_spec (k : Kind) (l : List Attempt) (obs : String) :
       cases hq : (oracleOf l m).get <;> simp [isHealthy, Get.isErr, hq] at hh' ⊢
     have := stale_then_healthy_succeeds_pool k hk (oracleOf l) m x hm5 hst hg hx
     simp [predict, this]
+  have hB0 : ∀ j, freshFailureAt k.poolLim l = some j →
+      (predict k (oracleOf l) obs).ok = false ∧ ∀ a, (predict k (oracleOf l) obs).att = some a → a ≤ j + 1 := by
+    intro j hj
+    simp only [freshFailureAt] at hj
+    split at hj
+    · rename_i hc
+      cases hj
+      simp only [Bool.and_eq_true, decide_eq_true_eq, beq_iff_eq] at hc
+      obtain ⟨⟨hle, hfresh⟩, hnone⟩ := hc
+      have hex := stale_then_fresh_failure k (oracleOf l) _ hle
+        (fun i hi => takeWhile_stale l i hi) hfresh (Option.isNone_iff_eq_none.1 hnone)
+      refine ⟨by simp [predict, hex], ?_⟩
+      intro a ha
+      simp only [predict] at ha
+      split at ha
+      · cases ha
+        rw [hex]
+        exact exchUpTo_le _ _
+      · cases ha
+    · cases hj
   have hB2 : k = .reuse → stalePoolHealthyServer l = true → (predict k (oracleOf l) obs).ok = true := by
     intro hk hs
     subst hk
@@ -449,8 +503,17 @@ theorem model_meets_spec (k : Kind) (l : List Attempt) (obs : String) :
     simp
   have hF : (predict k (oracleOf l) obs).woke = true ∧ (predict k (oracleOf l) obs).leak = 0 := ⟨rfl, rfl⟩
   simp only [spec, Bool.and_eq_true]
-  refine ⟨⟨⟨⟨⟨⟨⟨?_, ?_⟩, ?_⟩, ?_⟩, ?_⟩, ?_⟩, hF.1⟩, by simp [hF.2]⟩
+  refine ⟨⟨⟨⟨⟨⟨⟨⟨?_, ?_⟩, ?_⟩, ?_⟩, ?_⟩, ?_⟩, ?_⟩, hF.1⟩, by simp [hF.2]⟩
   · simpa using hA
+  · cases hq : freshFailureAt k.poolLim l with
+    | none => rfl
+    | some j =>
+      have := hB0 j hq
+      simp only [Bool.and_eq_true, Bool.not_eq_true']
+      refine ⟨this.1, ?_⟩
+      cases ha : (predict k (oracleOf l) obs).att with
+      | none => rfl
+      | some a => simpa using this.2 a ha
   · split
     · rename_i h
       simp only [bne_iff_ne, ne_eq] at h
@@ -480,6 +543,8 @@ example : spec .reuse (List.replicate 9 ⟨.pooled, none, false, healthyDial, fa
 example : spec .reuse [⟨.pooled, none, false, none, false⟩, ⟨.fresh, some 1, false, healthyDial, false⟩] ⟨false, some 1, some 0, "prompt", true, 0⟩ = false := by decide
 example : spec .reuse [⟨.pooled, none, false, none, false⟩, ⟨.fresh, some 1, false, healthyDial, false⟩] ⟨true, some 2, some 1, "prompt", true, 0⟩ = true := by decide
 example : spec .pipeline [⟨.fresh, none, false, none, false⟩] ⟨false, some 2, some 2, "prompt", true, 0⟩ = false := by decide
+example : spec .quic [⟨.fresh, none, false, none, false⟩] ⟨true, some 2, some 1, "prompt", true, 0⟩ = false := by decide
+example : spec .quic [⟨.fresh, none, false, none, false⟩] ⟨false, some 1, some 1, "prompt", true, 0⟩ = true := by decide
 example : spec .pipeline [⟨.pooled, none, false, none, false⟩] ⟨false, some 8, some 0, "prompt", true, 0⟩ = false := by decide
 example : spec .pipeline [⟨.fresh, none, false, none, false⟩] ⟨false, some 1, some 1, "intime", true, 0⟩ = false := by decide
 example : spec .pipeline [⟨.fresh, none, false, none, false⟩] ⟨false, some 1, some 1, "prompt", false, 0⟩ = false := by decide
